@@ -1,6 +1,6 @@
 // Pipeline V recorder for C15: drives the real AdaptiveHuffmanTree(314) through a long update history and logs
 // one ndjson event per call for validation by spec/Trace_Huffman.tla.
-//   huff_rec --pattern random|single|roundrobin|sawtooth --steps K [--table-every 512] [--seed S] > trace.ndjson
+//   huff_rec --pattern random|single|roundrobin|sawtooth|fib --steps K [--table-every 512] [--seed S] > trace.ndjson
 #include "Archive/HuffLZ.h"
 #include <nlohmann/json.hpp>
 #include <cstring>
@@ -11,15 +11,20 @@
 using namespace OP2Utility::Archive; using json = nlohmann::json;
 static const int N = 314;
 static void paths_of(AdaptiveHuffmanTree& t, std::vector<std::vector<int>>& out) { out.assign(N, {}); std::vector<int> cur; std::function<void(unsigned)> go = [&](unsigned n) { if (cur.size() > 700) throw std::logic_error("cycle"); if (t.IsLeaf(n)) { unsigned d = t.GetNodeData(n); if (d < (unsigned)N) out[d] = cur; return; } cur.push_back(0); go(t.GetChildNode(n, false)); cur.back() = 1; go(t.GetChildNode(n, true)); cur.pop_back(); }; go(t.GetRootNodeIndex()); }
+// the encoder's view: the bit string GetEncodedBitString reports for a symbol, in the order the decoder consumes it (LSB = branch at the root)
+static json enc_of(AdaptiveHuffmanTree& t, unsigned x) { try { unsigned bc = 0; unsigned bs = t.GetEncodedBitString((unsigned short)x, bc); if (bc > 64) return "unreadable"; json a = json::array(); for (unsigned i = 0; i < bc; ++i) a.push_back(i < 32 ? (bs >> i) & 1 : 0); return a; } catch (const std::exception&) { return "unreadable"; } }
+// "fib": symbol 7*i is updated fib(i) times in a row (i = 1, 2, ...): each heavy symbol is about as frequent as everything lighter together,
+// the profile that makes codes as long as the counters allow (more than 16 bits well inside the capacity)
+static unsigned fib_symbol(long k) { long a = 1, b = 1, start = 0; for (int i = 1; i < 40; ++i) { if (k < start + a) return (unsigned)((7 * i) % N); start += a; long c = a + b; a = b; b = c; } return 0; }
 int main(int argc, char** argv) { std::string pattern = "random"; long steps = 1000, every = 512; unsigned long long seed = 1;
 	for (int i = 1; i + 1 < argc; ++i) { std::string a = argv[i], v = argv[i + 1]; if (a == "--pattern") pattern = v; else if (a == "--steps") steps = atol(v.c_str()); else if (a == "--table-every") every = atol(v.c_str()); else if (a == "--seed") seed = strtoull(v.c_str(), 0, 10); }
 	std::mt19937_64 rng(seed); AdaptiveHuffmanTree t(N); std::vector<std::vector<int>> P; std::cout << json{{"e", "Init"}}.dump() << "\n";
 	for (long k = 0; k < steps; ++k) { unsigned x;
-		if (pattern == "single") x = 65; else if (pattern == "roundrobin") x = (unsigned)(k % N); else if (pattern == "sawtooth") { long p = k % (2 * N - 2); x = (unsigned)(p < N ? p : 2 * N - 2 - p); } else { x = (unsigned)(rng() % 16 == 0 ? rng() % N : rng() % 7 * 40); }
+		if (pattern == "single") x = 65; else if (pattern == "fib") x = fib_symbol(k); else if (pattern == "roundrobin") x = (unsigned)(k % N); else if (pattern == "sawtooth") { long p = k % (2 * N - 2); x = (unsigned)(p < N ? p : 2 * N - 2 - p); } else { x = (unsigned)(rng() % 16 == 0 ? rng() % N : rng() % 7 * 40); }
 		if (pattern == "random" && rng() % 997 == 0) x = N + (unsigned)(rng() % 3);                       // now and then an out-of-range symbol
 		bool ok = true; try { t.UpdateCodeCount(x); } catch (const std::exception&) { ok = false; }
-		json ev{{"e", "Upd"}, {"x", x}, {"ok", ok}, {"path", json::array()}};
+		json ev{{"e", "Upd"}, {"x", x}, {"ok", ok}, {"path", json::array()}, {"enc", json::array()}}; if (x < (unsigned)N) ev["enc"] = enc_of(t, x);
 		try { paths_of(t, P); if (x < (unsigned)N) ev["path"] = P[x]; } catch (const std::exception&) { ev["path"] = "unreadable"; }
 		std::cout << ev.dump() << "\n";
-		if ((k + 1) % every == 0 || k + 1 == steps) std::cout << json{{"e", "Table"}, {"paths", P}}.dump() << "\n"; }
+		if ((k + 1) % every == 0 || k + 1 == steps) { json E = json::array(); for (int s = 0; s < N; ++s) E.push_back(enc_of(t, (unsigned)s)); std::cout << json{{"e", "Table"}, {"paths", P}, {"enc", E}}.dump() << "\n"; } }
 	return 0; }
